@@ -132,6 +132,21 @@ def step (s : St) (ws : List String) : St × List String :=
       let s' := { s with g }
       (s', [showRes r ++ " - " ++ obs s'])
     | _, _ => (s, ["bad-op"])
+  | "replace" :: pre :: oc :: nc :: ps =>
+    -- replace <pre 0|1> <old chans a,b,..> <new chans a,b,..> <pairs my:other ...>
+    let parsed : Option (List (Option Nat × Nat)) := ps.mapM fun w =>
+      match w.splitOn ":" with
+      | [m, o] => match o.toNat? with
+        | some o => if m = "-" then some (none, o) else (m.toNat?).map fun m => (some m, o)
+        | none => none
+      | _ => none
+    match parsed, parseGroup oc, parseGroup nc, (if pre = "1" then some true else if pre = "0" then some false else none) with
+    | some pairs, some oc, some nc, some pre =>
+      let (g, r) := replaceConn s.g { oldChans := oc, newChans := nc, pairs } pre
+      let s' := { s with g }
+      let rs := match r with | .ok => "ok" | .refused => "refused" | .connErr => "connErr" | .badObs => "bad-obs"
+      (s', [rs ++ " - " ++ obs s'])
+    | _, _, _, _ => (s, ["bad-op"])
   | _ => (s, ["bad-op"])
 
 def main : IO Unit := Proto.run init step
